@@ -13,6 +13,7 @@
 //   (system after finalize(); H = the harness's own homogeneity test: weights and strengths times 2 and times 1/2 must give
 //    exactly 2 / 0.5 times every triplet and rhs entry before finalize())
 // SOLVE kind tol maxit <ASM body>   kind: 0 solveStar(params) 1 solve 2 solveWithPenalty 3 solveStar(pl) 4 solveB2B(pl,tg,st)
+//   5 solve(solveStar(params), params): the first initial step of GlobalPlacer::runInitialLB (no penalty)
 //   result: for each factor in 1 2 0.25 1024 2.5 7 2^-20 2^-24: the result vector as float bit patterns, separated by " | "
 // FASM k <ASM body>   the assembled system (after finalize()) as binary32 bit patterns, with every net weight and penalty strength
 //   multiplied by 2^0 and by 2^k (std::ldexp: exact unless it underflows/overflows); here a rational "num e" may have e < 0 or
@@ -171,6 +172,7 @@ static void runSolve(Rd &r) {
     else if (kind == 1) res = nm.solve(b.pl, p);
     else if (kind == 2) res = nm.solveWithPenalty(b.pl, b.tg, st, p);
     else if (kind == 3) res = nm.solveStar(b.pl, p);
+    else if (kind == 5) res = nm.solve(nm.solveStar(p), p);
     else res = nm.solveB2B(b.pl, b.tg, st, p);
     if (k) out += " | ";
     for (size_t i = 0; i < res.size(); ++i) { uint32_t u; memcpy(&u, &res[i], 4); char buf[16]; snprintf(buf, 16, "%s%08x", i ? " " : "", u); out += buf; }
@@ -195,6 +197,7 @@ static void runSolveK(Rd &r) {
     else if (kind == 1) res = nm.solve(b.pl, p);
     else if (kind == 2) res = nm.solveWithPenalty(b.pl, b.tg, st, p);
     else if (kind == 3) res = nm.solveStar(b.pl, p);
+    else if (kind == 5) res = nm.solve(nm.solveStar(p), p);
     else res = nm.solveB2B(b.pl, b.tg, st, p);
     if (pass) out += " | ";
     for (size_t i = 0; i < res.size(); ++i) { out += (i ? " " : ""); out += bitsf(res[i]); }
